@@ -119,6 +119,31 @@ Theorem exactly_one_after_close : forall ps nc pq rq ops, env_ok ops (init ps nc
 Proof. exact exactly_one_when_closed_proved. Qed.
 Print Assumptions exactly_one_after_close.
 
+(* node.close() run to completion - reads, every proposal shard in order, config change, snapshot,
+   log query, then the add() of a handleReadIndex that was under way ([close_ops]) - from ANY
+   reachable state: if no step of it panics, every accepted request has exactly one terminal result *)
+Theorem close_terminates_referenced : forall ps nc pq rq ops lo hi,
+  let s := run ops (init ps nc pq rq) in
+  env_ok (ops ++ close_ops s lo hi) (init ps nc pq rq) ->
+  let s2 := run (close_ops s lo hi) s in
+  h_err (H s2) = 0 ->
+  forall r, r < h_nreq (H s2) -> r_status (h_reqs (H s2) r) = 1 -> nterm (got s2 r) = 1%nat.
+Proof. exact close_terminates_referenced_proved. Qed.
+Print Assumptions close_terminates_referenced.
+
+(* where an accepted request without a result is: exactly the places the tick_expires_* theorems
+   and TakeReads / AddReads speak about *)
+Theorem referenced_where : forall ps nc pq rq ops, env_ok ops (init ps nc pq rq) ->
+  let s := run ops (init ps nc pq rq) in
+  forall r, r < h_nreq (H s) -> r_status (h_reqs (H s) r) = 1 -> nterm (got s r) = 0%nat ->
+  exists sl, sr sl = r /\
+    ((exists key, In (key, sl) (pend (P s)) /\ p_stop (P s) (key mod cps s) = false) \/
+     In sl (Requests.rq (R s)) \/ In sl (taken (R s)) \/
+     (rd_stop (R s) = false /\ In sl (batch_slots (batches (R s)))) \/
+     x_pend (C s) = Some sl \/ x_pend (S s) = Some sl \/ lq_pend s = Some sl).
+Proof. exact referenced_where_proved. Qed.
+Print Assumptions referenced_where.
+
 (* truthfulness: every result ever delivered is the one its code path produces - the apply path
    delivers Completed/Rejected carrying exactly the value it was given (no assumption on the
    environment needed); gc delivers Timeout only when deadline < now; close only Terminated ...
@@ -138,13 +163,19 @@ Theorem read_completed_only_when_applied : forall ps nc pq rq ops r e ap idx now
 Proof. exact read_applied_source_proved. Qed.
 Print Assumptions read_completed_only_when_applied.
 
-(* exactly one, the part proved: the requests the step worker took from the queue before close()
-   and hands to the stopped table afterwards (defect F3, repaired in /repo) are all terminated,
-   each exactly once, and the step does not panic.
-   PARTIAL: the full exactly_one_by_deadline ("every accepted request without a terminal result is
-   in [live]", then gc / close empty [live]) needs the converse of [live_requests_have_no_result]
-   (an accepted request with no result is still referenced), which is not proved here; the
-   harness monitor checks it on the implementation on every run. *)
+(* exactly_one_by_deadline, what is proved and what is not.
+   PROVED: at_most_one_terminal; accepted_without_result_is_referenced + referenced_where (a request
+   without a result sits in one of seven places); tick_expires_proposal / _read / _config_change /
+   _snapshot (the next due gc of the place delivers exactly one terminal result to everything in it
+   whose deadline has passed, without panic); exactly_one_after_close and close_terminates_referenced
+   (close). The statement below is the repaired F3 step.
+   NOT PROVED (hence still _partial): the composition over one whole worker round as ONE statement
+   ("Tick t ; AddReads ; TakeReads ; AddReads ; GcP 0..ps-1 ; GcC ; GcS ; ReadsApplied a  =>  every
+   accepted request other than a log query whose deadline is < t has exactly one terminal result").
+   It needs no further invariant, only the bookkeeping that the clock, lastGcTime, the stop flags,
+   the object deadlines and the table membership of the request are unchanged by the steps of the
+   round that come before the gc of its table. The harness monitor checks exactly this round on the
+   implementation on every run. A log query has no deadline; it completes with the step worker. *)
 Theorem exactly_one_by_deadline_partial : forall ps nc pq rq ops lo hi, env_ok ops (init ps nc pq rq) ->
   let s := run ops (init ps nc pq rq) in
   h_err (H s) = 0 -> rd_stop (R s) = true ->
